@@ -401,10 +401,19 @@ func trimLeftInPlace(s string) string {
 	return s[start:]
 }
 
-// findMjmlTagIndex finds the index of "<mjml" case-insensitively without allocating
+// findMjmlTagIndex finds the index of "<mjml" (outside comments) case-insensitively without allocating
 func findMjmlTagIndex(content string) int {
 	needle := "<mjml"
 	for i := 0; i <= len(content)-len(needle); i++ {
+		// The text of a comment is not markup: "<mjml" inside one is not the root element
+		if strings.HasPrefix(content[i:], "<!--") {
+			end := strings.Index(content[i+4:], "-->")
+			if end == -1 {
+				return -1
+			}
+			i += 4 + end + 3 - 1
+			continue
+		}
 		match := true
 		for j := 0; j < len(needle); j++ {
 			c := content[i+j]
